@@ -231,8 +231,8 @@ def gates(obs, tier):
     calls = obs.get("calls", {})
     bits = obs.get("bits", {})
     return {
-        "encoder_and_decoder_reached": calls.get("_encode_channel", 0) > 0
-        and calls.get("_decode_channel_into", 0) > 0,
+        "encoder_and_decoder_reached": obs.get("calls_by_module", {}).get(
+            "_compressed_segmentation", 0) > 0 and obs.get("blocks", 0) > 0,
         "every_bit_width_0_1_2_4_8_16_32": all(bits.get(str(b), 0) > 0
                                               for b in (0, 1, 2, 4, 8, 16, 32)),
         "noncubic_blocks": obs.get("noncubic_block", 0) > 20,
@@ -242,7 +242,6 @@ def gates(obs, tier):
         "labels_gt_2_53": obs.get("labels_gt_2_53", 0) > 10,
         "shared_tables_emitted": obs.get("tables_shared_by_encoder", 0) > 10,
         "alternative_layouts_decoded": obs.get("alt_layouts_decoded", 0) > 50,
-        "padding_function_reached": calls.get("pad_block", 0) > 0,
         "production_sized_chunk": obs.get("chunk_of_64_cubed", 0) > 0,
         "byte_sparse_label_palettes": obs.get("byte_sparse_palettes", 0) > 50,
     }
